@@ -181,6 +181,12 @@ def call_lib(case, n_clusters="case", cutoff="case", tri="case", entry="case"):
         LOGGER.setLevel(old[0])
         LOGGER.propagate = old[1]
         logging.disable(old[2])
+    if isinstance(init_arg, list):
+        # the same container is what a caller hands to a second run (plain vs shortcut, other stopping criteria):
+        # if the run grew or rewrote it, that second run no longer "starts from the supplied initial centers"
+        _, pts0 = build_init(case, X)
+        require(len(init_arg) == len(pts0) and all(np.array_equal(a, b) for a, b in zip(init_arg, pts0)),
+                "the run modified the caller's list of initial centers", before=len(pts0), after=len(init_arg))
     logged = [float(a[1]) for (m, a) in cap.records
               if isinstance(m, str) and m.startswith("Center %s gives max dist") and a and len(a) >= 2]
     return res, logged
